@@ -5,15 +5,20 @@
    Model: Check/Ratchet.v (check_baseline_ratchet, retain_evaluated = EvaluatedPaths::covers,
    tighten_baseline, handle_baseline_ratchet with the mode from flag over config) inside
    check_step (Check/Baseline.v). The evaluated set of a run is explicit:
-     evaluated = paths of all results of the run (any status) ++ dirs
-   where [dirs] are the directories whose counts the structure block checked plus, for a run
+     evaluated = paths of the content results of the run (any status) ++ dirs
+   (a structure result at the path of a file - missing sibling, naming, allow/deny lists - does not
+   make the file's line count evaluated: fix D85) where [dirs] are the directories whose counts the structure block checked plus, for a run
    that scanned directories, the baseline keys whose path no longer exists. A run restricted by
    --files, --diff/--staged, sub-path roots or cut short by fail-fast simply has fewer results.
    Keys are path_key of the path (fix D08) and a loaded baseline is re-keyed: [view disk] is the
    file as a run sees it; a file written by the fixed code is its own view ([ostable]).
    The model is that of the tree WITH fixes/D11-ratchet-evaluated-set.patch; before it
    C10_stale_only_if_evaluated_and_resolved and C10_strict_fails_only_for_resolved were refuted
-   for partial runs (witness in known_findings/C10.json, section fixed). *)
+   for partial runs (witness in known_findings/C10.json, section fixed); and WITH
+   fixes/D85-ratchet-evaluated-content-results.patch: before it the evaluated set held the paths
+   of ALL results, and the weaker statement with [map key_of R] was all that could be proved -- a
+   warn-severity missing-sibling result at the path of a recorded file that --diff or a fail-fast
+   short-circuit kept out of the file loop made its entry stale (Example C10_structure_result_is_not_evaluation). *)
 From Coq Require Import NArith List Bool.
 From SG Require Import Check.Results Check.ExitCode Check.BMap Check.Ratchet Check.Baseline
      Check.Proofs_Check Check.Proofs_C10 Check.Proofs_Keys.
@@ -54,12 +59,13 @@ Proof. exact auto_fixpoint. Qed.
 Print Assumptions C10_auto_fixpoint.
 
 (* a path is reported stale (warn, strict) or removed (auto) only if it is a baseline key, was
-   evaluated in this run, and no result of the run at that path is a violation *)
+   evaluated in this run - it is the path of a content result (the file's lines were counted) or
+   one of [dirs] -, and no result of the run at that path is a violation *)
 Theorem C10_stale_only_if_evaluated_and_resolved :
   forall fl R dirs disk k,
   In k (o_stale (check_step fl R dirs disk)) ->
   In k (okeys (view disk)) /\
-  In k (map key_of R ++ dirs) /\
+  In k (map key_of (content_results R) ++ dirs) /\
   (forall r, In r R -> key_of r = k -> violating r = false).
 Proof. exact stale_evaluated_resolved. Qed.
 Print Assumptions C10_stale_only_if_evaluated_and_resolved.
@@ -84,7 +90,7 @@ Theorem C10_strict_fails_only_for_resolved :
   ((exists r, In r (o_results (check_step fl R dirs disk)) /\ is_failed r = true) \/
    (f_wae fl = true /\ exists r, In r R /\ is_warning r = true) \/
    (effective_ratchet (f_ratchet_cli fl) (f_ratchet_cfg fl) = Some RStrict /\
-    exists k, In k (okeys (view disk)) /\ In k (map key_of R ++ dirs) /\
+    exists k, In k (okeys (view disk)) /\ In k (map key_of (content_results R) ++ dirs) /\
               (forall r, In r R -> key_of r = k -> violating r = false))).
 Proof. exact strict_fails_only_for_resolved. Qed.
 Print Assumptions C10_strict_fails_only_for_resolved.
@@ -125,6 +131,21 @@ Example C10_partial_run_untouched :
   o_exit (check_step strict_fl [pc] [] (Some bl2)) = 0.
 Proof. vm_compute. repeat split; reflexivity. Qed.
 Print Assumptions C10_partial_run_untouched.
+
+(* the former D85 witness: --diff (or a fail-fast short-circuit) kept ./a out of the file loop; the
+   only result at its path is the warn-severity missing_sibling result of the structure block
+   (Placement 5). Its entry is left alone under auto and strict passes; once the file loop has
+   counted ./a and found it within the limit the entry is stale as before *)
+Example C10_structure_result_is_not_evaluation :
+  let sib := mkResult [46;47;97] (Structure (Placement 5)) Warning 0 0 [] in
+  let pc := mkResult [46;47;99] Content Passed 3 10 [5] in
+  let bl := Some [(ka, EContent 12 [1])] in
+  o_disk (check_step auto_fl [pc; sib] [[46]] bl) = bl /\
+  o_stale (check_step strict_fl [pc; sib] [[46]] bl) = [] /\
+  o_exit (check_step strict_fl [pc; sib] [[46]] bl) = 0 /\
+  o_stale (check_step auto_fl [pc; pa; sib] [[46]] bl) = [ka].
+Proof. vm_compute. repeat split; reflexivity. Qed.
+Print Assumptions C10_structure_result_is_not_evaluation.
 
 (* the flag wins over the configuration; warn mode never touches the file *)
 Example C10_mode_precedence :
